@@ -336,7 +336,9 @@ func check(argv []string) int {
 					undecidedSweep = append(undecidedSweep, o.Name+" ["+or.R.Status+"]")
 				}
 				// an obligation that did not exist on the pinned tree and has a counterexample
-				if !or.OK && !baseSeen[o.Name] && or.R.Status == "sat" && !o.Vacuity {
+				// (only when the state was exact up to that point: after a havoc of unknown effects or a
+				// loop summary a model need not be a real execution - that stays "undecided", not an alarm)
+				if !or.OK && !baseSeen[o.Name] && or.R.Status == "sat" && !o.Vacuity && !o.Approx {
 					if _, ok := known[o.Name]; !ok {
 						v := violation{Obl: o.Name, Kind: o.Kind, Func: o.Func, Pos: o.Pos, Text: o.Text, Status: or.R.Status, Model: or.R.Model, Why: "new obligation (absent on the pinned tree) with a counterexample"}
 						viols = append(viols, v)
